@@ -46,6 +46,36 @@ Proof.
   - intros r H; discriminate.
 Qed.
 
+(* the invariant only looks at the database, the writers, the cache and the file contents *)
+Lemma dinv_same d d' :
+  md d' = md d -> thr d' = thr d -> cache d' = cache d ->
+  (forall v i, content d' v i = content d v i) ->
+  (forall v i, dcontent d' v i = dcontent d v i \/ dcontent d' v i = content d v i) ->
+  dinv d -> dinv d'.
+Proof.
+  intros Em Et Ec Hc Hd [I1 I2 I3 I4 I4' I5 I6].
+  constructor; rewrite ?Em, ?Et, ?Ec; auto.
+  - intros t r v i H. destruct (I4 t r v i H) as [S C]. split; [exact S|]. now rewrite Hc.
+  - intros r c H [v [i [S C]]]. apply (I5 r c H). exists v, i. rewrite Em in S. split; [exact S|]. now rewrite <- Hc.
+  - intros r H. destruct (I6 r H) as [v [i [S [C D]]]]. exists v, i. rewrite Em. split; [exact S|].
+    rewrite Hc. split; [exact C|]. destruct (Hd v i) as [E|E]; rewrite E; auto.
+Qed.
+
+Lemma touch_md r d : md (touch r d) = md d.
+Proof. unfold touch; destruct (mem r (fresh d)); reflexivity. Qed.
+Lemma touch_thr r d : thr (touch r d) = thr d.
+Proof. unfold touch; destruct (mem r (fresh d)); reflexivity. Qed.
+Lemma touch_cache r d : cache (touch r d) = cache d.
+Proof. unfold touch; destruct (mem r (fresh d)); reflexivity. Qed.
+Lemma touch_files r d : disk (touch r d) = disk d /\ pend (touch r d) = pend d.
+Proof. unfold touch; destruct (mem r (fresh d)); split; reflexivity. Qed.
+
+Lemma dinv_touch r d : dinv d -> dinv (touch r d).
+Proof.
+  apply dinv_same; try (unfold touch; destruct (mem r (fresh d)); reflexivity).
+  intros v i; left. unfold touch; destruct (mem r (fresh d)); reflexivity.
+Qed.
+
 (** * Steps the theorems are about *)
 (* (a) a store call that adds a reference adds it for a durably written sector — what Write
        returning nil followed by Sync is meant to guarantee to the RPC handlers;
@@ -278,7 +308,7 @@ Proof.
   intros I OK. cbn [dstep]. unfold dreserve.
   destruct (alookup t (thr d)) eqn:T; [exact I|].
   destruct (reserve r loc (md d)) as [| |s1 v i|o|] eqn:R; cbn [fst]; try exact I.
-  - (* exists *) destruct I as [I1 I2 I3 I4 I4' I5 I6]. constructor; cbn.
+  - (* exists *) apply dinv_touch. destruct I as [I1 I2 I3 I4 I4' I5 I6]. constructor; cbn.
     + now apply inv_add_known.
     + intros q v i H. unfold slot_at in H. rewrite add_known_vols in H. apply add_known_mem. eapply I2; eauto.
     + exact I3.
@@ -290,6 +320,7 @@ Proof.
       eapply durable_transfer; [|apply (I6 q H)]. intros v i S. split; auto.
       cbn [md with_md]. unfold slot_at. now rewrite add_known_vols.
   - (* placed *)
+    apply dinv_touch.
     destruct I as [I1 I2 I3 I4 I4' I5 I6].
     destruct (reserve_placed r loc (md d) s1 v i I1 R) as [J1 [F [-> [V [vl [G [S Hv]]]]]]].
     destruct (reserve_facts r (Some (v, i)) (md d) s1 v i I1 R) as [SR [K1 K2]].
@@ -463,7 +494,7 @@ Proof.
     + apply N.eqb_eq in E; subst. injection H as <-. exact Hc.
     + apply N.eqb_neq in E. now rewrite cget_cdel_other in H.
   - destruct (locate r (md d)) as [[v i]|] eqn:L; [|exact I].
-    destruct fail; [exact I|]. cbn [fst].
+    destruct fail; cbn [fst]; [now apply dinv_touch|]. apply dinv_touch.
     apply dinv_cache; [exact I|]. intros q x H W.
     apply cget_cadd in H as [[-> ->]|[Hq H]]; [|apply (d_cache d I q x H W)].
     destruct W as [w [j [S C]]]. apply locate_slot in L; [|apply (d_inv d I)].
@@ -515,7 +546,7 @@ Qed.
 Lemma dinv_prune d : dinv d -> dinv (fst (dstep d DPrune)).
 Proof.
   intros I. cbn [dstep]. unfold dprune.
-  set (f := fun r => refd (md d) r || in_flight r (thr d)).
+  set (f := fun r => refd (md d) r || mem r (fresh d) || in_flight r (thr d)).
   destruct (prune_with_ok f (md d) (d_inv d I)) as [m P]. rewrite P. cbn [dres fst].
   pose proof (inv_prune_with f (md d) _ (d_inv d I) P) as J1.
   destruct I as [I1 I2 I3 I4 I4' I5 I6].
@@ -800,6 +831,37 @@ Proof.
   exact (dinv_move d v idx r to m vl tl I G S Gt St Cr M).
 Qed.
 
+(** * The pieces of Sync, DAge *)
+Lemma dinv_sync_vol v d : dinv d -> dinv (sync_vol v d).
+Proof.
+  apply dinv_same; try reflexivity.
+  - intros w i. apply content_sync_vol.
+  - intros w i. rewrite dcontent_sync_vol. destruct (w =? v)%N; auto.
+Qed.
+
+Lemma dinv_with_syn d y : dinv d -> dinv (with_syn d y).
+Proof. apply dinv_same; try reflexivity. intros; now left. Qed.
+Lemma dinv_with_changed d c : dinv d -> dinv (with_changed d c).
+Proof. apply dinv_same; try reflexivity. intros; now left. Qed.
+Lemma dinv_with_fresh d f : dinv d -> dinv (with_fresh d f).
+Proof. apply dinv_same; try reflexivity. intros; now left. Qed.
+
+Lemma dinv_sync_pieces d o : dinv d ->
+  match o with DSyncBegin _ | DFsync _ _ _ | DClear _ | DSyncEnd _ | DAge => True | _ => False end ->
+  dinv (fst (dstep d o)).
+Proof.
+  intros I H. destruct o; try destruct H; cbn [dstep].
+  - unfold dsync_begin. destruct (alookup t (syn d)); cbn [fst]; [exact I|now apply dinv_with_syn].
+  - unfold dfsync. destruct (alookup t (syn d)) as [[todo [w|]]|]; cbn [fst]; try exact I.
+    destruct (mem v todo && _); cbn [fst]; [|exact I].
+    destruct ok; cbn [fst]; apply dinv_with_syn; [now apply dinv_sync_vol|exact I].
+  - unfold dclear. destruct (alookup t (syn d)) as [[todo [w|]]|]; cbn [fst]; try exact I.
+    apply dinv_with_syn. now apply dinv_with_changed.
+  - unfold dsync_end. destruct (alookup t (syn d)) as [[todo [w|]]|]; cbn [fst]; try exact I.
+    destruct (existsb _ todo); cbn [fst]; [exact I|now apply dinv_with_syn].
+  - now apply dinv_with_fresh.
+Qed.
+
 (** * Every allowed step preserves the invariant *)
 Theorem dinv_step d o : dinv d -> step_ok d o -> dinv (fst (dstep d o)).
 Proof.
@@ -808,6 +870,11 @@ Proof.
   - now apply dinv_reserve.
   - now apply dinv_write.
   - cbn. now apply dinv_sync.
+  - now apply dinv_sync_pieces.
+  - now apply dinv_sync_pieces.
+  - now apply dinv_sync_pieces.
+  - now apply dinv_sync_pieces.
+  - now apply dinv_sync_pieces.
   - now apply dinv_read.
   - cbn [dstep]. now apply dinv_migrate.
   - now apply dinv_shrink.
